@@ -499,6 +499,8 @@ def eval_stream(c, gen_sub, independent=True, budget_ms=3000, gen_extra=(), judg
                     aux = None
             if SIDE[i] is not None:
                 aux = dict(aux or {}, _side=SIDE[i])
+            if aux is not None:
+                aux = dict(aux, _model=M[i] if i < len(M) else "")
             bad = judge(text, I[i], aux)
             if bad:
                 oracle_checked += 0
